@@ -657,6 +657,11 @@ class Engine:
         feas = []
         for i, c in enumerate(conds):
             r = self._check(c)
+            if r == z3.unknown:
+                # one retry with a generous budget (a loaded machine must not turn into "unknown")
+                self.solver.set("timeout", max(self.timeout_ms * 12, 120000))
+                r = self._check(c)
+                self.solver.set("timeout", self.timeout_ms)
             if r == z3.sat:
                 feas.append(i)
             elif r == z3.unknown:
